@@ -384,8 +384,9 @@ def gen(seed, tier, prop="C10"):
     r = Sim(seed).stream("gen")
     sc = gen_base(r, tier, prop)
     sc["seed"] = seed
-    if prop != "C10" or r.random() < 0.15:
+    if prop == "C17" or r.random() < 0.15 or (prop == "C11" and r.random() < 0.4):
         return sc                       # fault-free history
+    fatal_only = prop != "C10"          # C11's frames are judged under fail-stop faults only (DESIGN 15.4)
     # one (quick) or up to three (thorough) faults at positions of the fault-free twin
     counts = count_io(sc)
     pos = []
@@ -397,14 +398,17 @@ def gen(seed, tier, prop="C10"):
     faults = []
     for i in range(nf):
         op_id, d, k = r.choice(pos)
-        kind = r.choice(SEND_FAULTS + ("send_zero",) if d == "send" else RECV_FAULTS)
+        if fatal_only:
+            kind = r.choice(("send_epipe", "send_rst") if d == "send" else ("peer_fin", "peer_rst"))
+        else:
+            kind = r.choice(SEND_FAULTS + ("send_zero",) if d == "send" else RECV_FAULTS)
         b = 0 if r.random() < 0.6 else r.choice((1, 3, 4, 23, 24, 30, 44))
         faults.append({"id": f"f{i}", "kind": kind, "at": {"op": op_id, "dir": d, "nth": k, "byte": b}})
     if r.random() < 0.05:
         faults.append({"id": "fc", "kind": r.choice(("connect_refused", "connect_timeout")), "at": {"op": None, "dir": "connect"}})
     if r.random() < 0.03:
         faults.append({"id": "fd", "kind": "dns_fail", "at": {"op": None, "dir": "dns"}})
-    if r.random() < 0.03:
+    if r.random() < 0.03 and not fatal_only:
         faults.append({"id": "fx", "kind": "close_error", "at": {"op": None, "dir": "close"}})
     sc["faults"] = faults
     return sc
